@@ -67,6 +67,7 @@ DenseSymmetricMatrix compute_covariance_matrix(RandomAccessIterator begin, Rando
     }
     covariance_matrix /= (end - begin);
     covariance_matrix.selfadjointView<Eigen::Upper>().rankUpdate(mean, -1.0);
+    covariance_matrix.triangularView<Eigen::StrictlyLower>() = covariance_matrix.transpose();
 
     return covariance_matrix;
 }
